@@ -63,6 +63,13 @@ def gen(run):
     for text, origin in spaces.all_programs(run):
         for opts in ({}, FULL):
             cases.append({"text": text, "opts": opts, "origin": origin})
+    # F: every lexically balanced FOR/NEXT skeleton (all NEXT spellings, nesting <= 3), one statement per line and on one line
+    structs = spaces.balanced_for_structures(6 if quick else 7)
+    for st in structs:
+        for text, lay in spaces.layouts_of(st):
+            cases.append({"text": text, "opts": {}, "origin": f"for-structure:{lay}"})
+    run.states += len(structs)
+    run.transitions += len(structs)
     # C: ordered pairs
     cat = K.CATALOGUE if not quick else [c for c in K.CATALOGUE]
     n = 0
@@ -132,7 +139,7 @@ def features(c):
 
 def run(run):
     run.rule = ("programs = catalogue x contexts, templates x operand shapes (one slot deviating, and all slots), ordered statement pairs on one and two lines, "
-                "bundled examples x 32 option sets; distinct = distinct (text, options) accepted by the tool; non-trivial = accepted (output parsed)")
+                "bundled examples x 32 option sets, balanced FOR/NEXT skeletons of <= 6 (thorough 7) statements; distinct = distinct (text, options) accepted by the tool; non-trivial = accepted (output parsed)")
     run.assumptions = ["BASIC09 statement grammar as modelled in vf/b09/syntax.py (reserved words bound to the BASIC09 binary's token table; ecb.b09 must parse)",
                        "programs whose *source* has unbalanced FOR/NEXT are outside the fragment (the tool transliterates FOR and NEXT one to one)"]
     cases = gen(run)
